@@ -313,6 +313,29 @@ PROPS = {
         ],
         "assumptions": [],
     },
+    "C18": {
+        "required_theorems": ["c18_alias", "c18_no_leak_success", "c18_no_leak_second_fails", "c18_no_leak_first_fails",
+                              "c18_elem_size_refused", "c18_churn", "c18_setup_refused"],
+        "pre_cmd": ["python3", "tools/vmtrace.py"],
+        "runs": [
+            {"sub": "vm", "quick": ["--seed", "{seed}", "--cycles", 2000],
+             "thorough": ["--seed", "{seed}", "--cycles", 200000], "timeout": 20000},
+            {"sub": "ring", "quick": ["--seed", "{seed}", "--cases", 300, "--max-ops", 20],
+             "thorough": ["--seed", "{seed}", "--cases", 20000, "--max-ops", 40]},
+        ],
+        "rule": "self-checking runs on the real code: create/drop churn in random order with up to 8 streams alive (one thread, "
+                "then 4 threads), counting the mappings of unlinked temp files in /proc/self/maps and the descriptors in "
+                "/proc/self/fd before and after; refused set-ups (6144, 4097, 0 bytes; 3-byte samples in 4096; 24-byte in 8192) "
+                "x300 leave nothing behind; data written through the second half is read through the first (1,2,4 pages) at "
+                "addresses exactly `size` apart; a child under RLIMIT_AS creates 4 MB streams until refusal: errors not "
+                "crashes, and everything is released. Plus the Buffer::new admission grid against the Lean model.",
+        "trusted_base": GLOBAL_TB + [
+            "tools/vmtrace.py: strace of `rrh vmtrace` (the real Buffer::new / drop in four scenarios), normalised to units of "
+            "the stream size relative to the first mapping; lean/RR/Gen/Mmap.lean is regenerated on every run",
+            "modelled, not verified (PARTIAL): kernel semantics of mmap / MAP_FIXED replacement / munmap / O_TMPFILE as in RR.Mmap",
+        ],
+        "assumptions": [],
+    },
 }
 
 MANIFEST_TEXT = {
@@ -489,6 +512,18 @@ MANIFEST_TEXT = {
         "design_ref": "DESIGN.md section 2, C17",
         "note": "PARTIAL: kernel page-cache semantics assumed. The Append-does-not-create defect was repaired by a fix: commit.",
         "technique": "Lean 4 proof over translator-generated open flags and event order + mode/initial-state correspondence + SIGKILL sampling",
+    },
+    "C18": {
+        "text": "Lean 4 theorems about the syscall sequences GENERATED on every run by an strace of the real stream set-up and "
+                "drop (in units of the stream size, relative to the base address, hence for every size and address): while the "
+                "stream exists both halves of the region are backed by the same file unit (byte i and byte i+size alias) and no "
+                "descriptor is held; create+drop, a refused second mmap and a refused first mmap all leave no mapping and no "
+                "descriptor; a non-dividing sample size is refused before any syscall; any sequence of such cycles returns to "
+                "the initial address space. Tied to the running process by /proc counts under churn across threads, alias "
+                "reads, refused sizes and RLIMIT_AS exhaustion.",
+        "design_ref": "DESIGN.md section 2, C18",
+        "note": "PARTIAL: the kernel is a parameter of the model. The missing sample-size admission test was repaired by a fix: commit.",
+        "technique": "Lean 4 proof over strace-generated syscall sequences + /proc leak counting on the real code",
     },
 }
 
